@@ -600,6 +600,48 @@ func gen(r *vlib.R, n int, tier string, emit func(string)) {
 					return small(vlib.Pick(r, []int{dns.RcodeServerFailure, dns.RcodeServerFailure, 0, dns.RcodeNameError}))
 				}
 				emitN(fmt.Sprintf("edns failover %s %s %s %s %s %s", vlib.Pick(r, []string{"d", "w"}), protoPick(r), q, small(rc), f(), f()))
+			case x == 9 && r.Chance(1, 2):
+				// the real rate limiter ahead of edns: a first query leaves a cookie on
+				// record (or not), the second comes with the same / another / no cookie
+				c1 := r.Bytes(8)
+				q1 := genQ(r)
+				q1.opcode, q1.opt, q1.qclass = 0, aOpt{present: true, udp: 1232}, 0
+				if r.Chance(5, 6) {
+					q1.opt.opts = []aOption{{optCookie, c1}}
+				}
+				q2 := genQ(r)
+				q2.opcode = 0
+				var keep []aOption
+				for _, o := range q2.opt.opts {
+					if o.code != optCookie {
+						keep = append(keep, o)
+					}
+				}
+				if q2.opt.present {
+					sec := ""
+					if cfg.secret {
+						sec = secretText
+					}
+					switch r.Intn(4) {
+					case 0: // the cookie on record, complete
+						keep = append(keep, aOption{optCookie, serverCookieFor(clientIP, c1, sec)})
+					case 1: // the same client half with a stale server half
+						keep = append(keep, aOption{optCookie, append(append([]byte(nil), c1...), r.Bytes(32)...)})
+					case 2: // another client
+						keep = append(keep, aOption{optCookie, r.Bytes(8)})
+					}
+					q2.opt.opts = keep
+				}
+				proto := protoPick(r)
+				if r.Bool() {
+					proto = "udp" // BADCOOKIE is a UDP answer
+				}
+				u := genR(r, q2, cfg, proto, 0, 0)
+				if u.mode != 'e' {
+					u.mode = 'e'
+				}
+				k, sm := rlFacts(q1, q2, cfg.deploy().secret)
+				emitN(fmt.Sprintf("edns ratelimit %s %s k=%s,s=%s %s %s %s", vlib.Pick(r, []string{"d", "w"}), proto, vlib.B(k), vlib.B(sm), q1, q2, u))
 			case x == 8 && r.Chance(1, 2):
 				// a private reverse name at the real AS112 handler, in every class
 				q := genQ(r)
